@@ -352,36 +352,65 @@ def seeded_for(prop):
     return out
 
 
-def run(prop, root, analyse):
-    """analyse(prop, root) -> (violations, errors).  Returns dict for the evidence and a list of problems."""
-    report = {"seeded": [], "neutral": []}
-    problems = []
-    for sid, patch, meta in seeded_for(prop):
-        d = copy_tree(root)
-        try:
+_ANALYSE = None
+
+
+def _job(args):
+    """One variant in a worker process (forked, so the analyser closure and the loaded modules are inherited)."""
+    kind, prop, root, a, b = args
+    d = copy_tree(root)
+    try:
+        if kind == "seeded":
+            sid, patch = a, b
             r = subprocess.run(["patch", "-p1", "-s", "-d", d, "-i", patch], capture_output=True, text=True)
             if r.returncode != 0:
-                report["seeded"].append({"id": sid, "result": "patch does not apply to this tree (skipped)"})
-                continue
-            viol, errs = analyse(prop, d)
-            fired = len(viol) > 0
-            report["seeded"].append({"id": sid, "fired": fired, "first": viol[0] if viol else None})
-            if not fired:
-                problems.append("seeded variant %s (%s) is not detected" % (sid, meta.get("summary", "")[:80]))
-        finally:
-            shutil.rmtree(d, ignore_errors=True)
-    for label, tr in NEUTRAL:
-        d = copy_tree(root)
+                return (kind, sid, "skip", [], [])
+            viol, errs = _ANALYSE(prop, d)
+            return (kind, sid, "ok", viol, errs)
+        label, idx = a, b
         try:
-            try:
-                rewrite_tree(d, tr)
-            except SyntaxError as e:
-                problems.append("neutral variant '%s' does not compile: %s" % (label, e))
+            rewrite_tree(d, NEUTRAL[idx][1])
+        except SyntaxError as e:
+            return (kind, label, "syntax", [str(e)], [])
+        viol, errs = _ANALYSE(prop, d)
+        return (kind, label, "ok", viol, errs)
+    finally:
+        shutil.rmtree(d, ignore_errors=True)
+
+
+def run(prop, root, analyse):
+    """analyse(prop, root) -> (violations, errors).  Returns dict for the evidence and a list of problems.
+    Variants are analysed in parallel worker processes (fork), one scratch copy each."""
+    global _ANALYSE
+    import multiprocessing
+    from concurrent.futures import ProcessPoolExecutor
+    _ANALYSE = analyse
+    report = {"seeded": [], "neutral": []}
+    problems = []
+    seeds = seeded_for(prop)
+    meta_of = {sid: meta for sid, patch, meta in seeds}
+    jobs = [("seeded", prop, root, sid, patch) for sid, patch, meta in seeds] + [("neutral", prop, root, label, i) for i, (label, tr) in enumerate(NEUTRAL)]
+    workers = max(1, min(int(os.environ.get("SA_JOBS", "0")) or (os.cpu_count() or 4), 16, len(jobs)))
+    try:
+        ctxmp = multiprocessing.get_context("fork")
+        with ProcessPoolExecutor(max_workers=workers, mp_context=ctxmp) as ex:
+            results = list(ex.map(_job, jobs))
+    except (OSError, ValueError, RuntimeError):
+        results = [_job(j) for j in jobs]        # no fork / no pool available: run in this process
+    for kind, ident, status, viol, errs in results:
+        if kind == "seeded":
+            if status == "skip":
+                report["seeded"].append({"id": ident, "result": "patch does not apply to this tree (skipped)"})
                 continue
-            viol, errs = analyse(prop, d)
-            report["neutral"].append({"variant": label, "silent": not viol and not errs, "alarms": viol[:2], "errors": errs[:2]})
+            fired = len(viol) > 0
+            report["seeded"].append({"id": ident, "fired": fired, "first": viol[0] if viol else None})
+            if not fired:
+                problems.append("seeded variant %s (%s) is not detected" % (ident, meta_of[ident].get("summary", "")[:80]))
+        else:
+            if status == "syntax":
+                problems.append("neutral variant '%s' does not compile: %s" % (ident, viol[0]))
+                continue
+            report["neutral"].append({"variant": ident, "silent": not viol and not errs, "alarms": viol[:2], "errors": errs[:2]})
             if viol or errs:
-                problems.append("neutral variant '%s' raises an alarm: %s" % (label, (viol + errs)[0][:300]))
-        finally:
-            shutil.rmtree(d, ignore_errors=True)
+                problems.append("neutral variant '%s' raises an alarm: %s" % (ident, (viol + errs)[0][:300]))
     return report, problems
